@@ -796,6 +796,11 @@ func (c *wsConn) handleWsConn(ctx context.Context) {
 			action = "read-error"
 
 			log.Debugw("websocket error", "error", rerr, "lastAction", action, "time", time.Since(start))
+			// mark the connection as broken so that requests arriving while we
+			// reconnect fail fast instead of being written to the dead connection
+			c.errLk.Lock()
+			c.incomingErr = rerr
+			c.errLk.Unlock()
 			if !c.tryReconnect(ctx) {
 				return // failed to reconnect
 			}
